@@ -1051,7 +1051,15 @@ func judgeFreshnessConcurrent(w *proxyWorld, res *Result) {
 		if !e.Sent || e.HdrT.IsZero() {
 			continue
 		}
+		// ... and that client is one whose own answer carries that response: an origin contact that
+		// merely falls into the time of an exchange (the detached fetch of a client that has left,
+		// still running next to the next request on the same connection) says nothing about when
+		// its response was stored (thorough run 10, seed 9: one false alarm in 1.3 million runs).
+		a := w.attrib(e)
 		for _, c := range w.contacts(e) {
+			if a == nil || a.N != c.N {
+				continue
+			}
 			if t, ok := headAt[c.N]; !ok || e.HdrT.After(t) {
 				headAt[c.N] = e.HdrT
 			}
